@@ -75,7 +75,10 @@ def run(ck, facts, tier):
     if vs:
         th = vs.thir
         ok_iter = has_call(th, "tuple_combinations") and has_call(th, "local_impls_to_coherence_check") and \
-            not [c for c in calls(th, ("Iterator::take", "Iterator::skip", "Iterator::filter", "Iterator::step_by"))]
+            not [c for c in calls(th, ("Iterator::take", "Iterator::skip", "Iterator::filter", "Iterator::step_by", "Iterator::zip",
+                                       "Iterator::filter_map", "Iterator::take_while", "Iterator::skip_while", "Iterator::nth"))]
+        # (`zip` pairs the i-th element of one list with the i-th of another and stops at the shorter one: it enumerates a diagonal,
+        # not the pairs)
         if ok_iter:
             ck.ok(R, "all-unordered-pairs")
         else:
